@@ -14,6 +14,15 @@
 (* Modes md: [big |-> target byte order for this statement, padding |-> PADDING ON, pcodd |-> statement starts   *)
 (*   at an odd address, cs |-> the CHARSET statements in force, lg |-> list granularity of the assembling target   *)
 (*   (only consulted by Devs: the documented layout does not depend on it)].                                     *)
+(* Single-quoted strings (assembler-usage.md "String to Integer Conversion and Character Constants"): a "multi        *)
+(*   character constant" is converted to its integer value ('AB' = 4142h), and "using the correct quotation is not    *)
+(*   necessary if the character string is longer than the used operand size".  For 1..4 characters that fit the      *)
+(*   element this is one integer; for more characters than the element holds it is a character string.  The manual's *)
+(*   examples stop at four characters, so for 5..8 characters in a 64-bit element (DQ, DC.Q) it does not decide       *)
+(*   between the two readings md.rd = "int" (ONE integer of up to 8 characters, first character most significant)    *)
+(*   and md.rd = "chars" (a character string: one element per character).  The EMPTY single-quoted string has no     *)
+(*   integer value ("int": an error) and no characters ("chars": nothing is laid down).  LayoutAlts collects the      *)
+(*   layouts of both readings: [k |-> "alt", alts |-> ...] when they differ - both conform, nothing else does.        *)
 EXTENDS Naturals, Integers, Sequences, FiniteSets, Limb64, IEEE
 
 (* ---- statement kinds ---------------------------------------------------------------------------------------- *)
@@ -129,6 +138,10 @@ IntAsDy(l) ==
        IN IF TopBit(a, 63) - tz >= 30 THEN Wide ELSE Dy(IF IsNeg(l) THEN 1 ELSE 0, mm[1] + B16 * mm[2], tz)
 
 (* ---- one argument -> elements ---------------------------------------------------------------------------------*)
+Readings == {"int", "chars"}
+Rd(md) == IF "rd" \in DOMAIN md THEN md.rd ELSE "int"
+\* the single-quoted empty string where an integer or a character string is expected
+EmptySq(a) == a.k = "str" /\ a.sq /\ a.cs = <<>>
 \* result: [k |-> "b", b |-> bytes] | [k |-> "res", n |-> bytes reserved] | [k |-> "err"] | [k |-> "uns"]
 ErrR == [k |-> "err"]
 UnsR == [k |-> "uns"]
@@ -168,8 +181,11 @@ ConcatR(rs) ==
 
 StrElems(st, a, md, big) ==
   LET cs == MapStr(md.cs, a.cs)
-      asint == a.sq /\ Len(a.cs) \in 1..4 /\ Len(a.cs) <= st.w /\ st.ty # "str"
+      asint == a.sq /\ Len(a.cs) >= 1 /\ Len(a.cs) <= st.w /\ st.w <= 8 /\ st.ty # "str"
+               /\ (Len(a.cs) <= 4 \/ Rd(md) = "int")                                 \* 5..8 characters: the reading decides
   IN IF asint THEN IntElem(st, CharsAsInt(cs, Zero), big)                            \* 'ab' in a word: one element 6162h
+     ELSE IF EmptySq(a) /\ st.ty \in {"int", "both"}
+          THEN (IF Rd(md) = "int" THEN ErrR ELSE BytesR(<<>>))                        \* no integer value / no characters
      ELSE IF a.cs = <<>> THEN UnsR
      ELSE IF st.ty = "str" \/ st.ty = "int" \/ st.ty = "both" THEN
             IF st.fam = "ti" THEN UnsR
@@ -210,7 +226,8 @@ RECURSIVE PElemsOf(_, _, _)
 PElemsOf(st, a, md) ==
   CASE a.k = "int" -> IF InRangeBits(a.v, st.ebits) THEN <<BytesLE(a.v)[1] % Pow2(st.ebits)>> ELSE <<ErrE>>
     [] a.k = "flt" -> <<ErrE>>
-    [] a.k = "str" -> IF st.ebits # 8 \/ a.cs = <<>> THEN <<UnsE>>
+    [] a.k = "str" -> IF st.ebits = 8 /\ EmptySq(a) THEN (IF Rd(md) = "int" THEN <<ErrE>> ELSE <<>>)
+                      ELSE IF st.ebits # 8 \/ a.cs = <<>> THEN <<UnsE>>
                       ELSE IF a.sq /\ Len(a.cs) = 1 THEN <<MapChar(md.cs, a.cs[1])>>
                       ELSE MapStr(md.cs, a.cs)
     [] a.k = "res" -> <<ResE>>
@@ -234,7 +251,8 @@ LayoutPacked(st, args, md) ==
   LET es == PElems(st, args, md)
       kinds == {es[i] : i \in 1..Len(es)}
   IN IF ErrE \in kinds THEN [k |-> "error"]
-     ELSE IF UnsE \in kinds \/ es = <<>> THEN [k |-> "unspec"]
+     ELSE IF UnsE \in kinds THEN [k |-> "unspec"]
+     ELSE IF es = <<>> THEN [k |-> "data", pad |-> 0, b |-> <<>>]            \* only '' under the "chars" reading
      ELSE IF ResE \in kinds THEN (IF kinds = {ResE} THEN [k |-> "reserve", pad |-> 0, n |-> UnitsFor(Len(es), st) * st.unit]
                                   ELSE [k |-> "error"])                    \* constants and placeholders cannot be mixed
      ELSE [k |-> "data", pad |-> 0, b |-> PackUnits(es, st)]
@@ -258,6 +276,7 @@ AvrStream(args, md, pending, out) ==      \* pending: <<>> or <<byte>>
                   even == 2 * (Len(all) \div 2)
               IN AvrStream(Tail(args), md, SubSeq(all, even + 1, Len(all)), out \o SubSeq(all, 1, even))
          [] a.k = "flt" -> <<ErrE>>
+         [] EmptySq(a) -> IF Rd(md) = "int" THEN <<ErrE>> ELSE AvrStream(Tail(args), md, pending, out)
          [] OTHER -> <<UnsE>>
 LayoutAvrData(args, md) ==
   LET r == AvrStream(args, md, <<>>, <<>>) IN
@@ -274,13 +293,23 @@ LayoutPlain(sname, args, md) ==
   IN IF Len(args) = 0 THEN [k |-> "error"]
      ELSE IF body.k = "err" THEN [k |-> "error"]
      ELSE IF body.k = "uns" THEN [k |-> "unspec"]
-     ELSE IF body.k = "b" THEN (IF Len(body.b) > 1024 THEN [k |-> "unspec"] ELSE [k |-> "data", pad |-> pad, b |-> body.b])
+     ELSE IF body.k = "b" THEN (IF Len(body.b) > 1024 \/ (body.b = <<>> /\ pad = 1) THEN [k |-> "unspec"]
+                                ELSE [k |-> "data", pad |-> pad, b |-> body.b])
      ELSE [k |-> "reserve", pad |-> pad, n |-> body.n]
 Layout(sname, args, md) ==
   CASE Len(args) = 0 -> [k |-> "error"]
     [] StmtTable[sname].fam = "packed" -> LayoutPacked(StmtTable[sname], args, md)
     [] StmtTable[sname].fam = "avrdata" -> LayoutAvrData(args, md)
     [] OTHER -> LayoutPlain(sname, args, md)
+
+\* both readings of single-quoted strings: one layout when they agree, else the alternatives (each "data" or "error")
+WithRd(md, r) == [f \in DOMAIN md \cup {"rd"} |-> IF f = "rd" THEN r ELSE md[f]]
+LayoutAlts(sname, args, md) ==
+  LET li == Layout(sname, args, WithRd(md, "int"))
+      lc == Layout(sname, args, WithRd(md, "chars"))
+  IN IF li = lc THEN li
+     ELSE IF li.k = "unspec" \/ lc.k = "unspec" THEN [k |-> "unspec"]
+     ELSE [k |-> "alt", alts |-> <<li, lc>>]
 
 \* the same statement twice with CHARSET statements cs2 between the two: the second copy sees the changed table
 LayoutTwice(sname, args, md, cs2) ==
@@ -320,6 +349,11 @@ Devs(sname, args, md) ==
      \cup (IF sname = "DCC" /\ md.lg = 1 THEN {"half_bytewise_target"} ELSE {})
      \* AVR DATA: a word-sized integer after an odd number of string bytes discards the pending byte (codeavr.c PlaceValue)
      \cup (IF sname = "AVRDATA" /\ ~md.packing /\ AvrDropsByte(args, FALSE) THEN {"avr_data_pending_byte"} ELSE {})
+     \* a single-quoted string of 0 characters, or of 5..8 characters in a 64-bit element, is taken for a multi character
+     \* constant although it cannot be converted: the element is written from a destroyed operand (asmpars.c MultiCharToInt
+     \* ignores the result of TempResultToInt; NonZString2Int converts 1..4 characters only)
+     \cup (IF \E i \in 1..Len(fa) : fa[i].k = "str" /\ fa[i].sq /\ (fa[i].cs = <<>> \/ (Len(fa[i].cs) \in 5..8 /\ st.w >= 8))
+           THEN {"multichar_unconverted"} ELSE {})
      \* LONG of the TMS320C2x truncates silently (tipseudo.c wr_code_long has no range check)
      \cup (IF sname = "TILONG" /\ \E i \in 1..Len(fa) : fa[i].k = "int" /\ ~InRange(fa[i].v, 4) THEN {"ti_long_range"} ELSE {})
 =============================================================================
